@@ -172,10 +172,11 @@ def truthy : Option Str → Bool
   | some (_ :: _) => true
   | _ => false
 
+/-- the id `clord_next()` returns: root of the current id, `--`, the incremented counter -/
+def nextId (o : Order) : Str := clordRoot o.clordId ++ [45, 45] ++ dec (o.clordCnt + 1)
+
 /-- `clord_next()`: increments the counter, returns the new id -/
-def clordNext (o : Order) : Order × Str :=
-  let c := o.clordCnt + 1
-  ({ o with clordCnt := c }, clordRoot o.clordId ++ [45, 45] ++ dec c)
+def clordNext (o : Order) : Order × Str := ({ o with clordCnt := o.clordCnt + 1 }, nextId o)
 
 def isFinished (o : Order) : Bool :=
   o.status == "2" || o.status == "4" || o.status == "8" || o.status == "C"
@@ -193,15 +194,21 @@ def canReplace (o : Order) : Res Bool := canRequest o "G" "E"
 /-- value of TransactTime (tag 60): the clock is external, the harness canonicalises it to "T" -/
 def clock : Str := [84]
 
+/-- `self.clord_id = self.clord_next()` -/
+def takeNextId (o : Order) : Order :=
+  { o with clordCnt := o.clordCnt + 1, clordId := nextId o }
+
 def newReq (o : Order) : Order × Res Msg :=
   if o.status ≠ "Z" then (o, .raised .assertion)
   else
-    let (o1, id) := clordNext o
-    let o2 := { o1 with clordId := id }
-    let m : Msg := ⟨"D", [(11, .text id), (55, .text o.ticker), (1, .text o.account),
-                          (40, .text o.ordType), (54, .text o.side), (60, .text clock),
-                          (44, .num o.price), (38, .num o.qty)]⟩
-    ({ o2 with status := "A" }, .ok m)
+    ({ takeNextId o with status := "A" },
+     .ok ⟨"D", [(11, .text (nextId o)), (55, .text o.ticker), (1, .text o.account),
+                (40, .text o.ordType), (54, .text o.side), (60, .text clock),
+                (44, .num o.price), (38, .num o.qty)]⟩)
+
+/-- `orig_clord_id = clord_id; clord_id = clord_next(); status = …` of both request builders -/
+def startRequest (o : Order) (status : String) : Order :=
+  { takeNextId o with origClordId := some o.clordId, status := status }
 
 def cancelReq (o : Order) : Order × Res Msg :=
   match canCancel o with
@@ -210,39 +217,41 @@ def cancelReq (o : Order) : Order × Res Msg :=
   | .ok true =>
     if truthy o.origClordId then (o, .raised .assertion)
     else
-      let o1 := { o with origClordId := some o.clordId }
-      let (o2, id) := clordNext o1
-      let o3 := { o2 with clordId := id }
-      let m : Msg := ⟨"F", [(11, .text id), (38, .num o.qty), (41, .text o.clordId),
-                            (55, .text o.ticker), (54, .text o.side), (60, .text clock)]⟩
-      ({ o3 with status := "6" }, .ok m)
+      (startRequest o "6",
+       .ok ⟨"F", [(11, .text (nextId o)), (38, .num o.qty), (41, .text o.clordId),
+                  (55, .text o.ticker), (54, .text o.side), (60, .text clock)]⟩)
 
-/-- `replace_req(price, qty)`; `none` stands for None / nan / ±inf -/
+/-- price / quantity that `replace_req(price, qty)` will ask for; `none` = None / nan / ±inf -/
+def effPrice (o : Order) : Option Int → Int
+  | none => o.price
+  | some x => if x = o.price then o.price else x
+
+def effQty (o : Order) : Option Int → Int
+  | none => o.qty
+  | some x => if x = o.qty ∨ x = 0 then o.qty else x
+
 def replaceReq (o : Order) (price qty : Option Int) : Order × Res Msg :=
   match canReplace o with
   | .raised e => (o, .raised e)
   | .ok false => (o, .raised .fixError)
   | .ok true =>
-    let p := match price with
-      | none => o.price
-      | some x => if x = o.price then o.price else x
-    let q := match qty with
-      | none => o.qty
-      | some x => if x = o.qty ∨ x = 0 then o.qty else x
-    if p = o.price ∧ q = o.qty then (o, .raised .fixError)
+    if effPrice o price = o.price ∧ effQty o qty = o.qty then (o, .raised .fixError)
     else if truthy o.origClordId then (o, .raised .assertion)
     else
-      let o1 := { o with origClordId := some o.clordId }
-      let (o2, id) := clordNext o1
-      let o3 := { o2 with clordId := id }
-      let m : Msg := ⟨"G", [(11, .text id), (41, .text o.clordId), (40, .text o.ordType),
-                            (55, .text o.ticker), (44, .num p), (38, .num q), (54, .text o.side),
-                            (60, .text clock)]⟩
-      ({ o3 with status := "E" }, .ok m)
+      (startRequest o "E",
+       .ok ⟨"G", [(11, .text (nextId o)), (41, .text o.clordId), (40, .text o.ordType),
+                  (55, .text o.ticker), (44, .num (effPrice o price)), (38, .num (effQty o qty)),
+                  (54, .text o.side), (60, .text clock)]⟩)
 
 /-- `self.status = FOrdStatus(new_status)` -/
 def setStatus (o : Order) (s : String) : Order × Res Bool :=
   if s ∈ statusValues then ({ o with status := s }, .ok true) else (o, .raised .value)
+
+/-- the request was rejected: back to the previous ClOrdID -/
+def revertId (o : Order) : Order :=
+  if truthy o.origClordId then
+    { o with clordId := o.origClordId.getD [], origClordId := none }
+  else o
 
 def processCancelRej (o : Order) (r : Report) : Order × Res Bool :=
   if r.msgType ≠ "9" then (o, .raised .fixError) else
@@ -251,13 +260,29 @@ def processCancelRej (o : Order) (r : Report) : Order × Res Bool :=
   | some st =>
     match changeStatus spec o.status "9" omitted st false with
     | .raised => (o, .raised .fixError)
-    | res =>
-      let o1 := if st = "8" then { o with leavesQty := 0 } else o
-      let o2 := if truthy o1.origClordId then
-          { o1 with clordId := o1.origClordId.getD [], origClordId := none } else o1
-      match res with
-      | .to s => setStatus o2 s
-      | _ => (o2, .ok false)
+    | .to s => setStatus (revertId (if st = "8" then { o with leavesQty := 0 } else o)) s
+    | .none => (revertId (if st = "8" then { o with leavesQty := 0 } else o), .ok false)
+
+/-- tail of `process_execution_report`: `if new_status: self.status = FOrdStatus(new_status)` -/
+def finishExec (res : OrderTable.Res) (o : Order) : Order × Res Bool :=
+  match res with
+  | .to s => if s ≠ "" then setStatus o s else (o, .ok false)
+  | _ => (o, .ok false)
+
+/-- the `exec_type == REPLACED` block -/
+def applyReplaced (res : OrderTable.Res) (o : Order) (r : Report) : Order × Res Bool :=
+  match r.price with
+  | .bad => (o, .raised .value)
+  | .missing =>
+    (match r.orderQty with
+     | .bad => (o, .raised .value)
+     | .missing => finishExec res { o with origClordId := none }
+     | .val q => finishExec res { o with qty := q, origClordId := none })
+  | .val p =>
+    (match r.orderQty with
+     | .bad => ({ o with price := p }, .raised .value)
+     | .missing => finishExec res { o with price := p, origClordId := none }
+     | .val q => finishExec res { o with price := p, qty := q, origClordId := none })
 
 def processExecReport (o : Order) (r : Report) : Order × Res Bool :=
   if r.msgType ≠ "8" then (o, .raised .fixError) else
@@ -279,33 +304,20 @@ def processExecReport (o : Order) (r : Report) : Order × Res Bool :=
   | .missing => (o, .raised .tagNotFound)
   | .bad => (o, .raised .value)
   | .val leaves =>
-  match changeStatus spec o.status "8" ex st false with
-  | .raised => (o, .raised .fixError)
-  | res =>
+  if changeStatus spec o.status "8" ex st false = .raised then (o, .raised .fixError) else
   match r.orderId with
   | none => (o, .raised .tagNotFound)
   | some oid =>
-  let o1 := { o with orderId := some oid, leavesQty := leaves, cumQty := cum }
   match r.avgPx with
-  | .missing => (o1, .raised .tagNotFound)
-  | .bad => (o1, .raised .value)
+  | .missing => ({ o with orderId := some oid, leavesQty := leaves, cumQty := cum }, .raised .tagNotFound)
+  | .bad => ({ o with orderId := some oid, leavesQty := leaves, cumQty := cum }, .raised .value)
   | .val avg =>
-  let o2 := { o1 with avgPx := some avg }
-  let fin (o3 : Order) : Order × Res Bool :=
-    match res with
-    | .to s => if s ≠ "" then setStatus o3 s else (o3, .ok false)
-    | _ => (o3, .ok false)
-  if ex = "5" then
-    match r.price with
-    | .bad => (o2, .raised .value)
-    | pr =>
-      let o3 := match pr with | .val p => { o2 with price := p } | _ => o2
-      match r.orderQty with
-      | .bad => (o3, .raised .value)
-      | qr =>
-        let o4 := match qr with | .val q => { o3 with qty := q } | _ => o3
-        fin { o4 with origClordId := none }
-  else fin o2
+    if ex = "5" then
+      applyReplaced (changeStatus spec o.status "8" ex st false)
+        { o with orderId := some oid, leavesQty := leaves, cumQty := cum, avgPx := some avg } r
+    else
+      finishExec (changeStatus spec o.status "8" ex st false)
+        { o with orderId := some oid, leavesQty := leaves, cumQty := cum, avgPx := some avg }
 
 /-! ### arbitrary call sequences (for the local theorems) -/
 
